@@ -138,6 +138,8 @@ def grouped(api: str, data: bytes):
     at_creation: list = []  # frame metadata visible when the factory is called for a frame
 
     def body():
+        # (the caller's variable still holds what an earlier stream left in it)
+        var.set({"stale": b"metadata of the last frame of an earlier stream"})
         if api == "generic":
             from pyjelly.integrations.generic import parse as gp  # noqa: PLC0415
             from pyjelly.integrations.generic.generic_sink import GenericStatementSink  # noqa: PLC0415
